@@ -109,7 +109,10 @@ def gen_script(rng):
         if r < 0.40:
             script.append(("call", ("as", 0 if rng.random() < 0.6 else rng.choice(VALS))))
         elif r < 0.52:
-            script.append(("call", ("at", rng.choice(THROWN))))
+            if rng.random() < 0.6:
+                script.append(("call", ("at", rng.choice(THROWN), rng.choice(mp.ATHROW_FORMS))))
+            else:
+                script.append(("call", ("at", rng.choice(THROWN))))
         elif r < 0.60:
             script.append(("call", ("ac",)))
         elif r < 0.85:
@@ -152,8 +155,10 @@ class Side:
     def __init__(self, prog, kind, mode="raw", responses=None):
         import asynkit
         self.kind = kind
-        self.log = []
+        self.log = mp.Log()
         self.keep = []
+        self.given = None
+        self.last_exc = None
         self.mode = mode
         self.responses = list(responses or [])
         self.pending = None
@@ -205,6 +210,12 @@ class Side:
         k = op[0]
         if k == "as":
             aw = self.gen.__anext__() if (anext and op[1] == 0) else self.gen.asend(None if op[1] == 0 else op[1])
+        elif k == "at" and len(op) > 2:
+            tb = mp.make_tb()
+            args, inst, cls, eargs = mp.athrow_args(op, tb)
+            self.given = {"inst": inst, "cls": cls, "args": eargs, "tb": tb if op[2].endswith("+t") else None}
+            aw = self.gen.athrow(*args)
+            self.keep += [args, tb]
         elif k == "at":
             aw = self.gen.athrow(mp.mkexc(op[1]))
         else:
@@ -223,6 +234,7 @@ class Side:
         except StopIteration as e:
             out = det = f"ret {mp.cv(e.value)}"
         except BaseException as e:  # noqa: BLE001
+            self.last_exc = e
             out = f"exc {mp.canon_exc(e)}"
             det = f"exc {exc_detail(e)}"
         else:
@@ -230,13 +242,37 @@ class Side:
             return out, det, True
         return out, det, False
 
+    def describe(self, e):
+        """identity / type / args / traceback of an exception relative to what athrow() was given"""
+        g = self.given
+        if isinstance(e, GeneratorExit):
+            return "GeneratorExit"         # delivered by close() to nested frames: only the type counts
+        same = "" if g["inst"] is None else (":given" if e is g["inst"] else ":other-object")
+        tb = "" if g["tb"] is None else (":tb" if mp.tb_contains(e, g["tb"]) else ":no-tb")
+        return f"{type(e).__name__}{e.args!r}{same}{tb}"
+
     def call(self, op, anext=False):
+        self.given = None
+        self.last_exc = None
+        n0 = len(self.log.caught)
         aw = self.mk(op, anext)
         out, det, pend = self.advance(lambda: aw.send(None))
         if pend:
             self.pending = aw
             self.pending_op = op[0]
-        return self.snapshot(out, det)
+        line, detail = self.snapshot(out, det)
+        if self.given is not None and self.given["cls"] is not GeneratorExit:
+            # (GeneratorExit reaches nested frames through close() and is re-raised by PEP 380: identity is not
+            # a property of either kind)
+            # what the body's first `except` clause received, and what came out of athrow()
+            first = self.log.caught[n0] if len(self.log.caught) > n0 else None
+            detail += " ; thrown=" + (self.describe(first) if first is not None else "-")
+            le = self.last_exc     # only an exception of the thrown class can be the thrown one coming back out
+            mine = le is not None and (le is self.given["inst"] or (
+                first is None and type(le) is self.given["cls"]
+                and not isinstance(le.__cause__, (StopIteration, StopAsyncIteration))))
+            detail += " out=" + (self.describe(le) if mine else "-")
+        return line, detail
 
     def resume(self, kind, arg):
         aw = self.pending
@@ -259,7 +295,7 @@ def run_raw(case):
     """Drive the native generator with the script (it decides which actions apply), then the
     GOI with exactly the same executed lines."""
     nat = Side(case["prog"], "n")
-    lines, nouts, ndets = [], [], []
+    lines, nouts, ndets, acts = [], [], [], []
     post = 0
     for a in case["script"]:
         if a[0] == "call":
@@ -271,6 +307,7 @@ def run_raw(case):
                     if post > 2:
                         break
                 lines.append(op_line(a))
+                acts.append(a)
                 o, d = nat.call(a[1], case.get("anext"))
                 nouts.append(o)
                 ndets.append(d)
@@ -285,6 +322,7 @@ def run_raw(case):
             # property; not generated.
             a = ("send", 0)
         lines.append(op_line(a))
+        acts.append(a)
         o, d = nat.resume(a[0], a[1])
         nouts.append(o)
         ndets.append(d)
@@ -292,21 +330,20 @@ def run_raw(case):
             break
     goi = Side(case["prog"], "g")
     gouts, gdets = [], []
-    for ln in lines:
-        t = ln.split()
-        if t[0] == "call":
-            op = (t[1],) if t[1] == "ac" else ("as", int(t[2])) if t[1] == "as" else ("at", t[2])
-            o, d = goi.call(op, case.get("anext"))
+    for a in acts:
+        if a[0] == "call":
+            o, d = goi.call(a[1], case.get("anext"))
         elif goi.pending is None:
             o, d = "no-pending-consumer", "no-pending-consumer"
         else:
-            o, d = goi.resume(t[0], int(t[1]) if t[0] == "send" else t[1])
+            o, d = goi.resume(a[0], a[1])
         gouts.append(o)
         gdets.append(d)
+    nat.acts = acts
     return lines, nouts, ndets, gouts, gdets, nat, goi
 
 
-def run_task(case, lines):
+def run_task(case, lines, acts):
     """Both kinds driven from inside a Task: consumer calls awaited one after the other; real
     suspensions are futures completed by the loop with the recorded responses."""
     responses = []
@@ -316,7 +353,7 @@ def run_task(case, lines):
             responses.append(("send", int(t[1])))
         elif t[0] == "throw":
             responses.append(("throw", t[1]))
-    calls = [ln.split() for ln in lines if ln.startswith("call ")]
+    calls = [a[1] for a in acts if a[0] == "call"]
     res = {}
     for kind in ("n", "g"):
         side = Side(case["prog"], kind, "task", responses)
@@ -331,8 +368,7 @@ def run_task(case, lines):
             return f"ret {mp.cv(r)}"
 
         async def main():
-            for t in calls:
-                op = (t[1],) if t[1] == "ac" else ("as", int(t[2])) if t[1] == "as" else ("at", t[2])
+            for op in calls:
                 out = await asyncio.get_running_loop().create_task(one(op))
                 outs.append(side.snapshot(out, out)[1].split(" ; st=")[0])
                 if "ignored GeneratorExit" in out:
@@ -414,6 +450,9 @@ def judge(case):
             tags.add("throw-into-suspended-consumer")
         if nd.startswith("pend"):
             tags.add("real-suspension")
+    for a in nat.acts:
+        if a[0] == "call" and a[1][0] == "at" and len(a[1]) > 2:
+            tags.add("athrow-form-" + a[1][2])
     if any("hGeneratorExit" in nd for nd in ndets):
         tags.add("GeneratorExit-handler-ran")
     if mp.has_yield([s for s in case["prog"] if s[0] == "CALL"]) or _deep_yield(case["prog"]):
@@ -423,12 +462,12 @@ def judge(case):
                  for i, o in enumerate(nouts))
     last_pending = bool(nouts) and nouts[-1].startswith("pend")
     if bad is None and lines and not second and not last_pending:
-        res = run_task(case, lines)
+        res = run_task(case, lines, nat.acts)
         tags.add("driven-by-task")
         if res["n"] != res["g"]:
             bad = ("task", 0, res["n"], res["g"])
         else:
-            want = [d for d in ndets if not d.startswith("pend")]
+            want = [d.split(" ; thrown=")[0] for d in ndets if not d.startswith("pend")]
             if res["n"] != want:
                 # native-in-Task vs native-raw: a harness/model matter, not asynkit's
                 bad = ("task-vs-raw", 0, want, res["n"])
@@ -533,7 +572,8 @@ def explore(ctx, cases, label=""):
                 field = "outcome"
                 if isinstance(b2[2], str) and isinstance(b2[3], str):
                     a, b = b2[2].split(" ; "), b2[3].split(" ; ")
-                    field = "outcome" if a[0] != b[0] else "ag_running" if a[1:2] != b[1:2] else "body-log"
+                    field = ("outcome" if a[0] != b[0] else "ag_running" if a[1:2] != b[1:2] else
+                             "body-log" if a[2:3] != b[2:3] else "athrow-exception")
                 ctx.violation(f"goi-vs-native:{b2[0]}:{field}",
                               f"{label}GeneratorObjectIterator and the native async generator of the same body differ "
                               f"({b2[0]} driving, {field})", small, expected={"native": b2[2]}, observed={"goi": b2[3]},
